@@ -13,7 +13,7 @@ CARGO_NET_OFFLINE=true RUST_BACKTRACE=0 cargo test -p "$pkg" --test "$tname" --o
 git apply "$mut/patch.diff" || { echo "APPLY FAILED" >> "$log"; exit 2; }
 echo "## demo WITH patch" >> "$log"
 CARGO_NET_OFFLINE=true RUST_BACKTRACE=0 cargo test -p "$pkg" --test "$tname" --offline $feat >> "$log" 2>&1; d1=$?
-rm -f crates/$crate/tests/seeded_*.rs
+rm -f crates/$crate/tests/seeded*.rs
 echo "## existing suite WITH patch" >> "$log"
 CARGO_NET_OFFLINE=true cargo test --workspace --no-fail-fast --offline 2>&1 | grep -E "^test result|FAILED|failed|^error" >> "$log"; 
 s=$(grep -c "test result: ok" "$log"); f=$(grep -E "^test result: FAILED|^error" "$log" | grep -v "## demo" | wc -l)
